@@ -73,9 +73,12 @@ func (l *Lexer) NextToken() token.Token {
 	l.skipWhitespace()
 
 	// skip single-line comments
-	if l.ch == rune('/') && l.peekChar() == rune('/') {
+	//
+	// (In a loop, rather than by calling ourselves: a script may
+	// contain millions of comment-lines in a row, and each level of
+	// recursion would cost us a stack-frame.)
+	for l.ch == rune('/') && l.peekChar() == rune('/') {
 		l.skipComment()
-		return (l.NextToken())
 	}
 
 	switch l.ch {
